@@ -1,6 +1,7 @@
 //! F flavour ("faults"): real threads; the simulator owns the stored bytes, the output I/O
 //! points, process death and pack availability.
 
+mod bigmanifest;
 mod c07f;
 mod c09;
 mod c11;
